@@ -315,6 +315,11 @@ func modelAdd(a *Abs, args []string) []Out {
 	if len(args) == 0 {
 		return []Out{a.refused()}
 	}
+	for _, arg := range args {
+		if arg == "" {
+			return []Out{a.refused()} // the empty string names nothing
+		}
+	}
 	ign := a.IgnoreRules()
 	I := a.IndexMap()
 	// validation: every argument must exist on disk or be a tracked file
@@ -409,8 +414,13 @@ func modelRm(a *Abs, args []string) []Out {
 	}
 	I := a.IndexMap()
 	for _, arg := range paths {
+		if arg == "" {
+			return []Out{a.refused()} // the empty string names nothing
+		}
+	}
+	for _, arg := range paths {
 		c := cleanArg(arg)
-		if strings.HasPrefix(c, "../") || c == ".." || c == "." || filepath.IsAbs(arg) {
+		if strings.HasPrefix(c, "../") || c == ".." || filepath.IsAbs(arg) {
 			return nil
 		}
 		_, tracked := I[c]
@@ -604,8 +614,13 @@ func modelRestore(a *Abs, args []string) []Out {
 	}
 	I := a.IndexMap()
 	for _, arg := range paths {
+		if arg == "" {
+			return []Out{a.refused()} // the empty string names nothing
+		}
+	}
+	for _, arg := range paths {
 		c := cleanArg(arg)
-		if strings.HasPrefix(c, "../") || c == ".." || c == "." || filepath.IsAbs(arg) {
+		if strings.HasPrefix(c, "../") || c == ".." || filepath.IsAbs(arg) {
 			return nil
 		}
 	}
